@@ -159,7 +159,12 @@ pub fn with_digests(parts: &Parts, plan: &DigestPlan) -> (Vec<u8>, Layout) {
     set(&mut p.main, TAG_PAYLOADDIGESTALGO, None);
     if let Some(t) = plan.payload.text(sha256_hex(&p.payload)) {
         set(&mut p.main, TAG_PAYLOADDIGEST, Some(Val::strs(&[&t])));
-        set(&mut p.main, TAG_PAYLOADDIGESTALGO, Some(Val::Int32(vec![plan.algo])));
+        // the low 16 bits are the first item; a non-zero high half adds a second item (value + 1)
+        let mut algos = vec![plan.algo & 0xFFFF];
+        if plan.algo >> 16 != 0 {
+            algos.push((plan.algo >> 16) - 1);
+        }
+        set(&mut p.main, TAG_PAYLOADDIGESTALGO, Some(Val::Int32(algos)));
     }
     let hbytes = p.main_header().encode();
     set(&mut p.sig, SIGTAG_MD5, None);
